@@ -208,7 +208,7 @@ func bare(name string) ident { return ident{name, name} }
 
 var (
 	colPool   = []ident{bare("a"), bare("b"), bare("c"), bare("id"), bare("amt"), bare("qty"), bare("col_1"), bare("Price"), q("Col X"), q(`q"t`), bare("é1")}
-	colKwPool = []ident{q("select"), q("from"), q("order")}
+	colKwPool = []ident{q("select"), q("from"), q("order"), q("group by"), q("left join")}
 	tblPool   = []ident{bare("t1"), bare("t2"), bare("users_1"), bare("ord"), q("My Table"), bare("T3")}
 	schemaP   = []ident{bare("s1"), bare("pub"), q("Sch 1")}
 	aliasPool = []ident{bare("x"), bare("y"), bare("z1"), q("al 1"), bare("w_2")}
